@@ -58,6 +58,10 @@ def main(argv=None):
                 if isinstance(rec.get('case'), dict) else None
             iface = (rec.get('case') or {}).get('interface') \
                 if isinstance(rec.get('case'), dict) else None
+            if isinstance(rec.get('case'), dict) and \
+                    rec['case'].get('arg_subclass'):
+                from vcheck import argtypes
+                argtypes.ACTIVE[0] = True
             if iface:
                 from vcheck import callstyle
                 callstyle.check(core.Collector(), iface[0], [iface[1]])
@@ -134,6 +138,20 @@ def main(argv=None):
                        and t not in keep]
                 keep.extend(hit[:int(lim)] if lim else hit)
             tasks = [t for t in tasks if t in keep]
+        if getattr(mod, 'SUBCLASS_SUBS', None) and not args.only and \
+                not os.environ.get('VERIF_CHILD'):
+            # the named deterministic sub-checks once more with str / int
+            # arguments passed as subclass instances
+            extra = []
+            for spec in mod.SUBCLASS_SUBS:
+                pre, _, lim = spec.partition('#')
+                hit = [t for t in tasks if t.sub.startswith(pre)]
+                for t in (hit[:int(lim)] if lim else hit):
+                    extra.append(core.Task(
+                        'subclass-args', core.with_subclass_args,
+                        inner_fn=t.fn, inner_kwargs=t.kwargs,
+                        inner_sub=t.sub))
+            tasks = tasks + extra
         if getattr(mod, 'INTERFACE', None) and not args.only:
             from vcheck import callstyle
             for m_, names_ in mod.INTERFACE:
